@@ -16,16 +16,19 @@ def tablesSoundB (T : LLTables) : Bool :=
                  | none => true)) &&
   (T.prods.all fun pr => !(pr.rhsRev.contains (PT.t 0)))
 
-/-- Every index the run can touch is in range and every automaton is sorted: with this, the model
-    never answers `internal` (see Props/C19). -/
+/-- Every index the run can touch is in range, right-hand sides contain no end-of-production
+    marker and no `T(0)`, every automaton is sorted, and an automaton whose start state is accepting
+    has no transitions (otherwise the runtime's `debug_assert!(last_prod_num > INVALID_PROD)` could
+    fire). With this the model never answers `internal` — no index panic, no parse-tree-stack
+    underflow, for any input (`ll_no_internal`, Props/C19). -/
 def tablesInRangeB (T : LLTables) : Bool :=
   (T.start < T.dfas.length) &&
   (T.prods.all fun pr => pr.lhs < T.dfas.length &&
     pr.rhsRev.all fun s => match s with
       | .n a => a < T.dfas.length
-      | .t _ => true
+      | .t a => a != 0
       | .e _ => false) &&
-  (T.dfas.all fun d => sortedTrans d.trans &&
+  (T.dfas.all fun d => sortedTrans d.trans && (d.prod0 ≤ -1 || d.trans.isEmpty) &&
     (dfaProds d).all fun p => p ≤ -1 || p.toNat < T.prods.length)
 
 -- @handler ll-verdict handleLLVerdict
@@ -41,6 +44,20 @@ def handleLLVerdict : List String → Option String
     if !tablesSoundB T then some "fail tables-not-sound" else
     if !tablesInRangeB T then some "fail tables-index-out-of-range-or-unsorted" else
     handleLangVerdict [gst, gps, w, v]
+  | _ => none
+
+-- @handler ll-tables-ok handleLLTablesOk
+/-- `ll-tables-ok <start> <prods> <dfas>` → `ok` iff the real table set passes `tablesSoundB` and
+    `tablesInRangeB` (the hypotheses of `ll_sound` and `ll_no_internal`). -/
+def handleLLTablesOk : List String → Option String
+  | [st, ps, ds] => do
+    let st ← st.toNat?
+    let ps ← parseLLProds ps
+    let ds ← parseDfas ds
+    let T : LLTables := ⟨st, ps, ds⟩
+    if !tablesSoundB T then some "fail tables-not-sound"
+    else if !tablesInRangeB T then some "fail tables-index-out-of-range-or-unsorted"
+    else some "ok"
   | _ => none
 
 end ParolModel
